@@ -6,6 +6,7 @@ From Ink.Engine Require Export Vars.
 
 Section Step.
 Variable I : iface.
+Variable sw : switches.
 
 Definition m_root : M container := gets root_of.
 Definition m_defs : M listdefs := gets (fun w => st_listdefs (w_story w)).
@@ -210,9 +211,10 @@ Definition next_content : M unit :=
 
 (* Story::choose_path / StoryState::set_chosen_path *)
 Definition choose_path (p : path) (incr_turn : bool) : M unit :=
-  let* _ := mod_state (fun s => ss_set_choices s []) in
+  let* _ := when (negb (sw_path_validated_first sw)) (mod_state (fun s => ss_set_choices s [])) in
   let* root := m_root in
   let* np := lift (pointer_at_path root p) in
+  let* _ := when (sw_path_validated_first sw) (mod_state (fun s => ss_set_choices s [])) in
   let np' := if negb (ptr_is_null np) && (ptr_i np =? -1)%Z then mkPtr (ptr_c np) 0%Z else np in
   let* _ := m_state_res (fun s => ss_set_cur_pointer s np') in
   let* _ := (if incr_turn then
@@ -287,7 +289,7 @@ Definition call_external_function (name : text) (nargs : Z) : M unit :=
   match assoc name (w_externals w) with
   | Some def =>
       (* NOTE external_functions.rs:97 tests `lookahead_safe`, not `!lookahead_safe` *)
-      if ex_safe def && in_string_evaluation (w_state w) then
+      if (if sw_ext_guard_fixed sw then negb (ex_safe def) else ex_safe def) && in_string_evaluation (w_state w) then
         add_error "External function could not be called because 1) it wasn't marked as lookaheadSafe" false
       else if negb (ex_safe def) && (match w_snapshot w with Some _ => true | None => false end) then
         modify (fun w => w <| w_saw_unsafe := true |>)
